@@ -4719,6 +4719,12 @@ XPath::NodeTester::NodeTester(
                 {
                     m_testFunction = &NodeTester::testNamespaceTotallyWild;
                 }
+                else if (m_targetNamespace != 0)
+                {
+                    // The expanded-name of a namespace node has a null
+                    // namespace URI, so a prefixed name never matches.
+                    m_testFunction = &NodeTester::testDefault;
+                }
                 else
                 {
                     m_testFunction = &NodeTester::testNamespaceNCName;
